@@ -255,7 +255,12 @@ pub fn run_staged(source: &str, t: &Tuple) -> Staged {
     if t.wrapper {
         // bash <repo>/fml run prog.fml with PARSER/COMPILER/INTERPRETER pointing at the binary
         let bin = super::proc::binary(t.profile);
-        let mut c = Child::new(t.profile, &[work::repo_root().join("fml").to_str().unwrap(), "run", "prog.fml"]);
+        // the wrapper takes the program from a file argument or, when none is given, from stdin (artefacts are then `program.*`)
+        let via_stdin = t.parse_stdin;
+        let script = work::repo_root().join("fml");
+        let mut c = if via_stdin { Child::new(t.profile, &[script.to_str().unwrap(), "run"]) } else { Child::new(t.profile, &[script.to_str().unwrap(), "run", "prog.fml"]) };
+        if via_stdin { c.stdin = In::File("prog.fml".into()); }
+        let stem = if via_stdin { "program" } else { "prog" };
         c.program = Some("/bin/bash".into());
         let b = bin.to_str().unwrap().to_string();
         c.env = vec![("PARSER".into(), b.clone()), ("COMPILER".into(), b.clone()), ("INTERPRETER".into(), b), ("PATH".into(), "/usr/bin:/bin".into())];
@@ -263,8 +268,8 @@ pub fn run_staged(source: &str, t: &Tuple) -> Staged {
         let r = run_child(&dir, &c);
         st.children += 4;
         // the stages are chained with &&; an output file is created (empty) before its stage can fail
-        st.ast_bytes = std::fs::read(dir.join("prog.json")).ok().filter(|b| !b.is_empty());
-        st.bc_bytes = std::fs::read(dir.join("prog.bc")).ok().filter(|b| !b.is_empty());
+        st.ast_bytes = std::fs::read(dir.join(format!("{}.json", stem))).ok().filter(|b| !b.is_empty());
+        st.bc_bytes = std::fs::read(dir.join(format!("{}.bc", stem))).ok().filter(|b| !b.is_empty());
         if st.ast_bytes.is_none() || st.bc_bytes.is_none() {
             st.failed = Some(StageFail { stage: if st.ast_bytes.is_none() { "parse" } else { "compile" }, exit: r.exit.clone(), message: r.stderr_masked(400) });
         }
@@ -445,6 +450,13 @@ pub fn batch_collision(a: &Prepared, b: &Prepared, f: Fmt, profile: Profile, see
     };
     let r1 = run(&["parse", "job.1.fml", "--format", f.ext(), "-o", "asts"]);
     let after1 = list_dir(&dir.join("asts"));
+    // what the first program's file holds *before* the second program arrives: only a change caused by the second one is a
+    // collision (a file that never reloaded correctly is the single pipelines' O1, not this oracle's)
+    let first_ok_before = after1.len() == 1 && {
+        let text = std::fs::read_to_string(dir.join("asts").join(&after1[0])).unwrap_or_default();
+        catch(|| f.serializer().deserialize(&text).ok()).ok().flatten().as_ref() == Some(&a.ast)
+    };
+    if !first_ok_before { cleanup(&dir); return None; }
     let r2 = run(&["parse", "job.2.fml", "--format", f.ext(), "-o", "asts"]);
     let after2 = list_dir(&dir.join("asts"));
     if !r1.exit.is_success() || !r2.exit.is_success() || after1.len() != 1 { cleanup(&dir); return None; } // refusal: decided by the single-program pipelines
@@ -462,6 +474,7 @@ pub fn batch_collision(a: &Prepared, b: &Prepared, f: Fmt, profile: Profile, see
     let second = after2.iter().find(|n| **n != first).cloned().unwrap_or_default();
     let c1 = run(&["compile", &format!("asts/{}", first), "-o", "bcs"]);
     let bc_after1 = list_dir(&dir.join("bcs"));
+    if bc_after1.len() == 1 && std::fs::read(dir.join("bcs").join(&bc_after1[0])).unwrap_or_default() != a.reference { cleanup(&dir); return None; } // O2's business
     let c2 = run(&["compile", &format!("asts/{}", second), "-o", "bcs"]);
     let bc_after2 = list_dir(&dir.join("bcs"));
     if !c1.exit.is_success() || !c2.exit.is_success() || bc_after1.len() != 1 { cleanup(&dir); return None; }
@@ -707,6 +720,7 @@ fn exercise(name: &str, spec: &ProgSpec, rng: &mut Rng, n_tuples: usize) -> Out1
     if rng.below(4) == 0 {
         let mut t = Tuple::plain(Fmt::Json, if rng.coin() { Profile::Debug } else { Profile::Release });
         t.wrapper = true;
+        t.parse_stdin = rng.coin(); // program on the wrapper's stdin instead of a file argument
         tuples.push(t);
     }
     for t in tuples {
